@@ -488,6 +488,38 @@ func paramAddrs(n int) {
 	hook.Ev("param-addrs", n, out, t%1000003)
 }
 
+// blank and unnamed parameters of basic kinds (they have no slot in the frame)
+var gblank int
+
+func ignore1(_ int) {
+	gblank++
+}
+
+func ignore2(_ int, b int) {
+	gblank += b
+}
+
+func ignore3(float64) int {
+	gblank += 3
+	return gblank
+}
+
+func blankParams(n int) {
+	gblank = n
+	ignore1(n)
+	ignore2(n, n+1)
+	k := ignore3(1.5)
+	f := func(_ bool) int {
+		gblank *= 2
+		return gblank
+	}
+	g := func(_ string, _ uint8) {
+		gblank++
+	}
+	g("x", 2)
+	hook.Ev("blank", n, k, f(true), gblank)
+}
+
 func Main() {
 	gfuncs, gsetters, gptrs, gsptrs = nil, nil, nil, nil
 	gfptrs, gbptrs = nil, nil
@@ -500,7 +532,9 @@ func Main() {
 	}
 	steps := 6 + hook.Choose(14)
 	for s := 0; s < steps; s++ {
-		switch hook.Choose(26) {
+		switch hook.Choose(27) {
+		case 26:
+			blankParams(hook.Choose(9))
 		case 25:
 			paramAddrs(hook.Choose(12))
 		case 24:
